@@ -155,11 +155,16 @@ package xtype
 //@ func Type.AsPointerType(t; )
 //@   props C03 C13
 //@   requires@C13 t != nil
-//@   ensures result != nil
+//@   ensures result != nil && result == types.NewPointer(t.T)
 //@ func toCode(t)
 //@   props C01 C18
 //@   pure
 //@   ensures result != nil
+// C13/C01: an alias is looked through before the kind of the type is decided, at every level (toCode recurses into
+// element, key, field and parameter types by itself; only TypeOf unaliases the top level). Without it an alias in a
+// nested position reaches the final panic. (That the panic is unreachable for every other input is not proved: it
+// needs "no type parameter, tuple or union at any depth", a fact about the callers' inputs.)
+//@   ensures@C13,C01 reached("types.Unalias#1")
 //@ func toCodeNamed(t)
 //@   props C01 C18
 //@   ensures result != nil
@@ -259,6 +264,7 @@ package xtype
 // C01/C10: zero values of composite types are spelled with the full rendering of the type (type arguments included)
 //@ func ZeroValue(t)
 //@   props C01 C10
+//@   ensures result != nil
 //@   ensures dynIs[*types.Named](t) && dynIs[*types.Struct](unboxed[*types.Named](t).Underlying()) ==> result == jen.Parens(toCode(t).Block())
 //@   ensures dynIs[*types.Struct](t) || dynIs[*types.Array](t) ==> result == toCode(t).Block()
 //@   ensures dynIs[*types.Interface](t) || dynIs[*types.Signature](t) || dynIs[*types.Pointer](t) || dynIs[*types.Map](t) || dynIs[*types.Slice](t) || dynIs[*types.Chan](t) ==> result == jen.Nil()
